@@ -130,11 +130,11 @@ def run(ctx):
     ctx.rule = ("functions of 1-4 un-annotated parameters from the seeded generator infgen.py over the constructs for which inference is "
                 "documented (arithmetic / comparison with a typed operand, = / <>, calls to library and user functions with known or generic "
                 "signatures (fresh instance per use), record / union construction, tuples, slices, destructuring, function-typed parameters "
-                "applied or passed once); quick 1200, thorough 12000 generated functions (those the rules reject as ill-typed are dropped, about 2/3), each with the un-annotated version and up to 7 subsets of its "
+                "applied or passed once); quick 1200, thorough 60000 generated functions (those the rules reject as ill-typed are dropped, about 2/3), each with the un-annotated version and up to 7 subsets of its "
                 "redundant annotations. distinct = distinct (function, annotated subset); non-trivial = the principal type contains a type "
                 "constructor or a type variable")
     r = ctx.tlc("FoInferMC", "FoInferMC.cfg", workers=4, timeout=1800)
-    n = 12000 if ctx.tier == "thorough" else 1200
+    n = 60000 if ctx.tier == "thorough" else 1200
     rng = random.Random(ctx.seed * 15485863 + 2)
     fns = infgen.generate(rng, n)
     lines, bad, princ = run_fns(ctx, fns)
